@@ -738,7 +738,7 @@ def gen_model_history(r, name):
                 "vattach %d 0 -1 w" % g_, "vsattach %d 0 -1 w" % s_, "vattachn %d 0 %s %s" % (g_, vgn, r.choice("rrw")),
                 "vsattachn %d 0 %s %s" % (s_, vdn, r.choice("rrw")), "vsetname %d x" % g_, "vsetclass %d x" % g_,
                 "vaddtagref %d %d %d" % (g_, t, rf), "vdeletetagref %d %d %d" % (g_, t, rf), "vssetname %d x" % s_,
-                "vssetclass %d x" % s_, "vswrite %d 1 2" % s_, "vdetach %d" % g_, "vsdetach %d" % s_,
+                "vssetclass %d x" % s_, "vswrite %d 1 2" % s_, "vsdefinefields %d PX" % s_, "vsdefinefields %d a" % s_, "vdetach %d" % g_, "vsdetach %d" % s_,
                 "vdeleten 0 %s" % vgn, "vsdeleten 0 %s" % vdn]))
         else:
             L.append(r.choice([
@@ -754,7 +754,7 @@ def gen_model_history(r, name):
 
 RC_DECISIVE = set("""startaccess startread startwrite write trunc setlength putelement dupdd deldd reuse hlcreate hxcreate hccreate
 hmccreate hlconvert hsync hcache vattach vsattach vattachn vsattachn vsetname vsetclass vaddtagref vdeletetagref vssetname vssetclass
-vswrite vdeleten vsdeleten appendable endaccess vdetach vsdetach hclose hopen""".split())
+vswrite vsdefinefields vdeleten vsdeleten appendable endaccess vdetach vsdetach hclose hopen""".split())
 
 
 def run_model(ctx):
